@@ -456,7 +456,7 @@ def _run(ctx):
             ctx.state("path_x_class", (pth, "number"))
             ctx.count("numbers")
         else:
-            cls = rng.choice(["word", "meta", "markup", "ws", "nl", "exotic", "mixed", "empty", "long"])
+            cls = rng.choice(["word", "meta", "markup", "ws", "nl", "exotic", "mixed", "empty", "long", "backslash", "backslash"])
             s = gen.text_of(rng, cls)
             check_case(ctx, pth, s)
             ctx.case(nontrivial=bool(set(s) & set("&<>")), dg=pth + "\0" + s)
